@@ -1,26 +1,140 @@
 package main
 
 import (
+	"flag"
 	"fmt"
 	"os"
-
-	"golang.org/x/tools/go/packages"
-	"golang.org/x/tools/go/ssa"
-	"golang.org/x/tools/go/ssa/ssautil"
+	"strings"
 )
 
+func usage() {
+	fmt.Fprintln(os.Stderr, `usage:
+  govc check --prop Cxx [--tier quick|thorough] [--repo /repo]
+  govc func <pkgpath::Func> [--dump] [--timeout N]    verify one function (debug)
+  govc lemma <label>                                   verify one lemma (debug)
+  govc list                                            list functions under contract`)
+	os.Exit(2)
+}
+
 func main() {
-	cfg := &packages.Config{Mode: packages.LoadAllSyntax, Dir: "/repo", BuildFlags: []string{"-tags=verif"}}
-	pkgs, err := packages.Load(cfg, "./...")
-	if err != nil {
-		fmt.Println(err)
-		os.Exit(2)
+	if len(os.Args) < 2 {
+		usage()
 	}
-	prog, spkgs := ssautil.AllPackages(pkgs, ssa.BuilderMode(0))
-	prog.Build()
-	for _, p := range spkgs {
-		if p != nil {
-			fmt.Println(p.Pkg.Path(), len(p.Members))
+	cmd := os.Args[1]
+	fs := flag.NewFlagSet(cmd, flag.ExitOnError)
+	repo := fs.String("repo", "/repo", "repository working tree")
+	prop := fs.String("prop", "", "property id")
+	tier := fs.String("tier", "", "quick|thorough")
+	dump := fs.Bool("dump", false, "dump queries")
+	timeout := fs.Int("timeout", 10, "solver timeout (s)")
+	only := fs.String("only", "", "only obligations whose name contains this")
+	keep := fs.Bool("keep", false, "keep query files")
+	var pos []string
+	args := os.Args[2:]
+	for len(args) > 0 && !strings.HasPrefix(args[0], "-") {
+		pos = append(pos, args[0])
+		args = args[1:]
+	}
+	fs.Parse(args)
+	pos = append(pos, fs.Args()...)
+	if *tier == "" {
+		*tier = os.Getenv("VERIF_TIER")
+		if *tier == "" {
+			*tier = "quick"
 		}
+	}
+	switch cmd {
+	case "check":
+		os.Exit(runCheck(*repo, *prop, *tier))
+	case "func", "lemma":
+		if len(pos) < 1 {
+			usage()
+		}
+		w, err := LoadWorld(*repo)
+		if err != nil {
+			fmt.Fprintln(os.Stderr, "error:", err)
+			os.Exit(2)
+		}
+		var vc *VC
+		if cmd == "func" {
+			key := pos[0]
+			if !strings.Contains(key, "::") {
+				// search by suffix
+				for k := range w.cons.Funcs {
+					if strings.HasSuffix(k, "::"+key) {
+						key = k
+					}
+				}
+			}
+			if !strings.Contains(key, "::") {
+				key = modPath + "/rules::" + key
+			}
+			vc, err = w.VerifyFunc(key)
+		} else {
+			for _, lm := range w.cons.Lemmas {
+				if lm.Label == pos[0] {
+					vc, err = w.VerifyLemma(lm)
+				}
+			}
+			if vc == nil && err == nil {
+				err = fmt.Errorf("no lemma %s", pos[0])
+			}
+		}
+		if err != nil {
+			fmt.Fprintln(os.Stderr, "error:", err)
+			os.Exit(2)
+		}
+		for _, e := range vc.errs {
+			fmt.Println("CONTRACT ERROR:", e)
+		}
+		for _, n := range vc.notes {
+			fmt.Println("note:", n)
+		}
+		r := NewRunner(*timeout, false)
+		r.keep = *keep || *dump
+		defer r.Close()
+		var items []vcObl
+		for _, o := range vc.obls {
+			if *only == "" || strings.Contains(o.Name, *only) {
+				items = append(items, vcObl{vc, o})
+			}
+		}
+		rs := r.SolveAll(items)
+		bad := 0
+		for _, x := range rs {
+			exp := ""
+			if x.Obl.ExpectSat {
+				exp = " (cover)"
+			}
+			fmt.Printf("%-10s %-60s %s %.2fs %s%s\n", x.Status, x.Obl.Name, x.Solver, x.Time, x.Obl.Pos, exp)
+			if x.Status != "discharged" {
+				bad++
+				if x.Status == "error" {
+					fmt.Println("   ", x.Raw)
+				}
+				if *dump {
+					fmt.Println(x.Query)
+					fmt.Println(x.Model)
+					for k, v := range x.Raw {
+						fmt.Println("  ", k, ":", trunc(v, 600))
+					}
+				}
+			}
+		}
+		if r.keep {
+			fmt.Println("queries in", r.workdir)
+		}
+		fmt.Printf("%d obligations, %d not discharged\n", len(rs), bad)
+	case "list":
+		w, err := LoadWorld(*repo)
+		if err != nil {
+			fmt.Fprintln(os.Stderr, "error:", err)
+			os.Exit(2)
+		}
+		for _, k := range w.cons.FuncOrd {
+			fmt.Println(k)
+		}
+	default:
+		usage()
 	}
 }
